@@ -95,6 +95,26 @@ theorem lock_released {s s' : State} (hs : step s .closeWriter = some s') : s'.l
   · cases hs; exact ⟨rfl, rfl⟩
   · cases hs
 
+/-- **close_returns_after_close_event**: in every reachable state, a Close call that has returned (enabled only after the
+one `closeWriter` event of the writer) finds the lock released, the loops stopped (no job, no merge write in flight) and
+the root dropped — whichever of several concurrent callers it is -/
+theorem close_returns_after_close_event {n : Nat} (hn : 1 ≤ n) {s s' : State} (h : Reachable n s)
+    (hc : closeReturned s = some s') :
+    s' = s ∧ s.isOpen = false ∧ s.lock = false ∧ s.job = none ∧ s.mergeW = [] ∧ s.rootSegs = [] := by
+  have hI := inv_reachable hn h
+  unfold closeReturned at hc
+  split at hc
+  · cases hc
+  · rename_i ho
+    have ho' : s.isOpen = false := by cases hb : s.isOpen <;> simp_all
+    cases hc
+    have hci := hI.closed_idle ho'
+    exact ⟨rfl, ho', by rw [hI.lock_iff, ho'], hci.1, hci.2.1, hci.2.2.2.1⟩
+
+/-- a Close return is not enabled while the writer is open (the second of two concurrent callers must wait) -/
+theorem close_return_not_enabled_while_open {s : State} (ho : s.isOpen = true) : closeReturned s = none := by
+  simp [closeReturned, ho]
+
 /-- **second_writer_refused**: while the lock is held, OpenWriter fails at `Lock()` and changes nothing
 (no truncation, no removal, no clean-up) -/
 theorem second_writer_refused {s : State} (hl : s.lock = true) : step s .openWriter = some s := by
@@ -151,6 +171,10 @@ theorem close_always_unlocks : BlugeGen.C11.closeReturnsBeforeUnlock = 0 := by d
 before the introduction and when the introduction was skipped (checked on every real run by the handle balance) -/
 theorem mem_merge_releases_loaded_segment :
     BlugeGen.C11.memMergeReleases = ["closed-writer", "after-introduction"] := by decide
+
+/-- `closeWriter` is one event and `closeReturned` comes after it for every caller: `Writer.Close` runs `close()` through
+`s.closeOnce.Do` (a `sync.Once` field) and returns after it — concurrent callers wait for the first to finish -/
+theorem close_goes_through_once : BlugeGen.C11.closeViaOnce = true := by decide
 
 /-- `loadOrder`/`commitAll`: loadSnapshots walks oldest → newest, commits each loaded snapshot, skips the unloadable -/
 theorem gen_load_snapshots :
